@@ -7,7 +7,7 @@ import (
 )
 
 // bl <n> <op>... ; ops: a0 a1 (AddBit) y<byte> (AddByte) s<v>:<k> (AddBits)
-// S<i>:<0|1> (SetBit) g<i> (GetBit) l (Len) b (GetBytes) i (IterateBytes)
+// S<i>:<0|1> (SetBit) g<i> (GetBit) l (Len) b (GetBytes) i (IterateBytes) I (IterateBytes overlapping another iteration)
 // output: one token per op ("-" none, T/F, int, hex) then "|" then the final
 // sequence as 0/1 string read through GetBit.
 func init() {
@@ -53,6 +53,24 @@ func init() {
 				var bs []byte
 				for b := range bl.IterateBytes() {
 					bs = append(bs, b)
+				}
+				out = append(out, tohex(bs))
+			case 'I': // IterateBytes in lock step with the iteration of a second list of the same length
+				other := utils.NewBitList(0)
+				for _, b := range bl.GetBytes() {
+					other.AddByte(^b)
+				}
+				ca, cb := bl.IterateBytes(), other.IterateBytes()
+				var bs []byte
+				for {
+					x, ok1 := <-ca
+					_, ok2 := <-cb
+					if ok1 {
+						bs = append(bs, x)
+					}
+					if !ok1 && !ok2 {
+						break
+					}
 				}
 				out = append(out, tohex(bs))
 			default:
